@@ -14,10 +14,21 @@ import time
 VERIF = os.path.dirname(os.path.dirname(os.path.abspath(__file__)))
 REPO = os.environ.get("VERIF_REPO", "/repo")
 SPEC = os.path.join(VERIF, "spec")
-WORK = os.path.join(VERIF, "work")
-BUILD = os.path.join(VERIF, "build")
-EVID = os.path.join(VERIF, "evidence")
-REPLAYS = os.path.join(VERIF, "replays")
+# VERIF_ALT=<name> (with VERIF_REPO=<other checkout>) runs a check against another checkout
+# of the repository in complete isolation (own build, work, evidence and replay dirs); it is
+# used to try the checks against seeded changes without touching /repo or the real evidence.
+ALT = os.environ.get("VERIF_ALT")
+if ALT:
+    _base = os.path.join(VERIF, "work", "alt-" + ALT)
+    WORK = os.path.join(_base, "work")
+    BUILD = os.path.join(VERIF, "build", "alt-" + ALT)
+    EVID = os.path.join(_base, "evidence")
+    REPLAYS = os.path.join(_base, "replays")
+else:
+    WORK = os.path.join(VERIF, "work")
+    BUILD = os.path.join(VERIF, "build")
+    EVID = os.path.join(VERIF, "evidence")
+    REPLAYS = os.path.join(VERIF, "replays")
 GUARD = "xoolive_rs1090_verif"
 TLA_CP = "/opt/veriftools/tla/tla2tools.jar:/opt/veriftools/tla/CommunityModules-deps.jar"
 NCPU = os.cpu_count() or 4
@@ -61,6 +72,16 @@ def build_rs(binname):
     if ("rs", binname) in _built:
         return _built[("rs", binname)]
     hdir = os.path.join(VERIF, "harness", "rsdriver")
+    if REPO != "/repo":
+        # the harness has a path dependency on /repo/crates/rs1090: use a copy that points
+        # at the other checkout
+        alt = os.path.join(BUILD, "rsdriver-src")
+        shutil.rmtree(alt, ignore_errors=True)
+        shutil.copytree(hdir, alt, ignore=shutil.ignore_patterns("target", "Cargo.lock"))
+        ct = os.path.join(alt, "Cargo.toml")
+        txt = open(ct).read().replace("/repo/crates/rs1090", os.path.join(REPO, "crates", "rs1090"))
+        open(ct, "w").write(txt)
+        hdir = alt
     lock_src = os.path.join(REPO, "Cargo.lock")
     lock_dst = os.path.join(hdir, "Cargo.lock")
     if not os.path.exists(lock_dst):
